@@ -3,7 +3,7 @@ import itertools
 
 META = {
     "technique": "Lean 4 proof (induction: stable-sort invariant over runs and merge passes) + exact differential correspondence with the compiled macros",
-    "text": "mjSORT / insertion sort: proved for every length and every total-preorder comparator that the model returns a sorted permutation preserving every ordered subsequence (stability); mjPARTIAL_SORT modelled at heap-operation level and tied by exact correspondence. The model is hand-written; the tie is a differential run of the unmodified macros of engine_sort.h against the compiled Lean model (exhaustive small scope + seeded random around run boundaries).",
+    "text": "mjSORT / insertion sort: proved for every length and every total-preorder comparator that the model returns a sorted permutation preserving every ordered subsequence (stability); mjPARTIAL_SORT (heapify, scan, final insertion sort, modelled at heap-operation level): proved for every n and every 1 <= k <= n that the first k outputs are the k smallest elements in sorted order and the tail is untouched (heap invariant by induction, sift-down fuel shown sufficient). The model is hand-written; the tie is a differential run of the unmodified macros of engine_sort.h against the compiled Lean model (exhaustive small scope + seeded random around run boundaries).",
     "note": "model abstracts the ping-pong buffers to lists of runs (index arithmetic covered by the correspondence only).",
 }
 
@@ -14,7 +14,10 @@ THEOREMS = [
     "MjProof.C22.mjSort_stable_pair",
     "MjProof.C22.insertionSort_stableSorted",
     "MjProof.C22.insertionSortInt_sorted",
+    "MjProof.C22.partialSort_k_smallest",
+    "MjProof.C22.partialSort_noop",
     "MjProof.C22.cmpKey_totalPreorder",
+    "MjProof.C22.cmpKey_heapCmp",
 ]
 
 BOUNDARY = [0, 1, 2, 3, 31, 32, 33, 34, 63, 64, 65, 66, 95, 96, 97, 127, 128, 129, 130, 191, 192, 193, 255, 256, 257]
